@@ -28,6 +28,18 @@ chk('C03', 'model_checking', 'explicit-state BFS over update() histories of the 
     'trusted: vf/refsem.py incl. its horizon; one open known finding (site:C03-past-over-future) is suppressed by a syntactic predicate; default 1 s sampling period',
     'DESIGN.md section 5 C03')
 
+chk('C04', 'exploration', 'bounded exhaustive enumeration of dense formulas x grid step signals on the real dense offline monitor vs grid reference',
+    'every dense-time formula of the stated fragment is evaluated by the real offline monitor on every step signal with break-points on the half-unit grid of [t0,t0+L] '
+    '(independent per variable) and compared as a function with an exact cell-wise reference at every cell start and midpoint; exhaustive within those bounds',
+    'trusted: vf/dref.py (self-checked at two resolutions); one open known finding (t0 > 0 with bounded operators) suppressed syntactically',
+    'DESIGN.md section 5 C04')
+
+chk('C05', 'model_checking', 'explicit-state BFS over all update() schedules (chunkings) of the real dense online monitor',
+    'for every (formula, signal set) all ways of cutting the signals into successive update() batches are explored as a state graph; on every transition the emitted samples must be '
+    'time-ordered and equal the dense reference at every grid time covered, so no two chunkings can disagree',
+    'trusted: vf/dref.py; finite family of signal sets (fixed time sets, values {-1,2}); coverage of the output is not constrained',
+    'DESIGN.md section 5 C05')
+
 def main():
     props = [json.loads(l) for l in open(os.path.join(ROOT, 'properties.jsonl'))]
     checks = []
